@@ -102,7 +102,16 @@ def table_callable(table):
     """the callable handed to PyFunction / PyFunctionModel (FuncProtoCases.table_callable)"""
     from cirbo.core.utils import input_to_canonical_index
 
+    n_rows = len(table)
+    width = len(table[0]) if table else 0
+    # the identity function is realistically written as `lambda xs: xs`: the callable hands back
+    # its own argument object (this is what exposes aliasing between the iterator and the result)
+    identity = width == 2 ** n_rows and n_rows > 0 and all(
+        [row[i] for row in table] == list(v) for i, v in enumerate(vectors(n_rows)))
+
     def f(args):
+        if identity and len(args) == n_rows and type(args) is list:
+            return args
         i = input_to_canonical_index(args)
         return [row[i] for row in table]
     return f
